@@ -267,8 +267,8 @@ def dump_graph(module, cfg=None, wd=None, **kw):
     return r, nodes, edges, inits
 
 
-_NODE = re.compile(r'^(-?\d+) \[label="(.*)"(,style = filled)?\];?$')
-_EDGE = re.compile(r'^(-?\d+) -> (-?\d+) \[label="(.*?)",color=')
+_NODE = re.compile(r'^(-?\d+) \[label="((?:[^"\\]|\\.)*)"(,style = filled)?')
+_EDGE = re.compile(r'^(-?\d+) -> (-?\d+) \[label="((?:[^"\\]|\\.)*)",color=')
 
 
 def parse_dot(path):
